@@ -115,16 +115,33 @@ class C16(core.Check):
 
     # ---------- implementation ----------
     def run_impl(self, case):
-        from urwid.widget.monitored_list import MonitoredFocusList
+        import urwid
+        from urwid.widget.monitored_list import MonitoredFocusList, MonitoredList
+        kind = case.get("kind", "mfl")
         objs = {}
         base = []
         for i in case["items"]:
             objs.setdefault(i, Obj(i))
             base.append(objs[i])
-        ml = MonitoredFocusList(list(base), focus=case["focus"])
         events = []
-        ml.set_modified_callback(lambda: events.append([0]))
-        ml.set_focus_changed_callback(lambda n: events.append([1, n]))
+        if kind == "mfl":
+            ml = MonitoredFocusList(list(base), focus=case["focus"])
+            ml.set_modified_callback(lambda: events.append([0]))
+            ml.set_focus_changed_callback(lambda n: events.append([1, n]))
+        elif kind == "sflw":
+            ml = urwid.SimpleFocusListWalker(list(base))
+            if base:
+                ml.focus = case["focus"]
+            urwid.connect_signal(ml, "modified", lambda: events.append([0]))
+            ml.set_focus_changed_callback(lambda n: events.append([1, n]))
+        elif kind == "ml":
+            ml = MonitoredList(list(base))
+            ml.set_modified_callback(lambda: events.append([0]))
+        elif kind == "slw":
+            ml = urwid.SimpleListWalker(list(base))
+            urwid.connect_signal(ml, "modified", lambda: events.append([0]))
+        else:
+            raise core.MachineryError("unknown subject kind " + kind)
         outs = []
         for op in case["ops"]:
             del events[:]
@@ -133,11 +150,13 @@ class C16(core.Check):
                 ml = apply_op(ml, op, objs)
             except (IndexError, ValueError, TypeError) as e:
                 err = type(e).__name__
-            outs.append([err, [list(e) for e in events], ml.focus])
-        return {"outs": outs, "items": [o.n for o in ml], "focus": ml.focus}
+            outs.append([err, [list(e) for e in events], ml.focus if kind in ("mfl", "sflw") else None])
+        return {"outs": outs, "items": [o.n for o in ml], "focus": ml.focus if kind in ("mfl", "sflw") else None}
 
     # ---------- model wire format ----------
     def encode(self, case):
+        if case.get("kind", "mfl") not in ("mfl", "sflw"):
+            return None          # plain monitored lists: judged by the oracle only
         l = [len(case["items"])] + list(case["items"]) + [case["focus"]]
         for op in case["ops"]:
             k = op[0]
@@ -186,6 +205,7 @@ class C16(core.Check):
             objs.setdefault(i, Obj(i))
             ref.append(objs[i])
         n0 = len(ref)
+        plain = case.get("kind", "mfl") in ("ml", "slw")
         focus = case["focus"] if n0 else None      # expected observable focus index
         for k, op in enumerate(case["ops"]):
             before = list(ref)
@@ -218,6 +238,8 @@ class C16(core.Check):
                 msgs.append(f"{tag}: modified callback fired {nmod} times")
             if changed and nmod != 1:
                 msgs.append(f"{tag}: contents changed but modified callback fired {nmod} times")
+            if plain:
+                continue
             # expected focus
             old_focus = focus
             exp = self.expected_focus(op, before, ref, old_focus)
@@ -242,6 +264,8 @@ class C16(core.Check):
                     msgs.append(f"{tag}: focus index unchanged ({focus}) but focus-changed fired {fch}")
         if [o.n for o in ref] != res["items"]:
             msgs.append(f"final contents {res['items']} differ from a built-in list {[o.n for o in ref]}")
+        if plain:
+            return msgs
         if (res["focus"] is None) != (len(ref) == 0):
             msgs.append(f"focus is {res['focus']} on a list of length {len(ref)}")
         elif ref and not (0 <= res["focus"] < len(ref)):
@@ -311,6 +335,7 @@ class C16(core.Check):
         for op, (err, _, _) in zip(case["ops"], res["outs"]):
             dist["op:" + op[0]] = dist.get("op:" + op[0], 0) + 1
             dist["err:" + str(err)] = dist.get("err:" + str(err), 0) + 1
+        dist["kind:" + case.get("kind", "mfl")] = dist.get("kind:" + case.get("kind", "mfl"), 0) + 1
         k = "len:%d" % min(len(case["items"]), 9)
         dist[k] = dist.get(k, 0) + 1
 
@@ -348,6 +373,22 @@ class C16(core.Check):
         nrand = 4000 if tier == "quick" else 40000
         for _ in range(nrand):
             yield self.random_case(rng, rng.choice([2, 3, 5, 8, 15, 30]))
+        # the same operations through the list walkers and the plain monitored list
+        for kind in ("sflw", "ml", "slw"):
+            for n in (0, 1, 3):
+                for f in (range(n) if n else [0]):
+                    for op in self.single_ops(n, 100):
+                        if kind in ("ml", "slw") and op[0] == "setfocus":
+                            continue
+                        yield {"kind": kind, "items": list(range(n)), "focus": f, "ops": [op]}
+                    if kind != "sflw":
+                        break
+            for _ in range(nrand // 8):
+                c = self.random_case(rng, rng.choice([2, 4, 8]))
+                c["kind"] = kind
+                if kind in ("ml", "slw"):
+                    c["ops"] = [o for o in c["ops"] if o[0] != "setfocus"]
+                yield c
         if tier == "thorough":
             # every pair of operations on lists of 3 with a reduced index alphabet
             saved = (self.IDX, self.STEPS)
@@ -414,13 +455,13 @@ class C16(core.Check):
     def shrink_candidates(self, case):
         ops = case["ops"]
         for i in range(len(ops)):
-            yield {"items": case["items"], "focus": case["focus"], "ops": ops[:i] + ops[i + 1:]}
+            yield {"kind": case.get("kind", "mfl"), "items": case["items"], "focus": case["focus"], "ops": ops[:i] + ops[i + 1:]}
         n = len(case["items"])
         if n:
             for i in range(n):
                 its = case["items"][:i] + case["items"][i + 1:]
                 f = min(case["focus"], max(0, len(its) - 1))
-                yield {"items": its, "focus": f, "ops": ops}
+                yield {"kind": case.get("kind", "mfl"), "items": its, "focus": f, "ops": ops}
 
 
 CHECK = C16
